@@ -312,6 +312,10 @@ def cov_xml(cl, oidx, fr):
     C = np.array(cl.cov["C"], dtype=float)
     band = cl.cov["band"]
     n = C.shape[0]
+    if cl.cov.get("raw"):
+        # written exactly as held (used for deliberately malformed matrices)
+        rows = [" ".join(fmt(C[i, j]) for j in range(i, min(n, i + band + 1))) for i in range(n)]
+        return '<cov-mat dim="%d" band="%d">\n%s\n</cov-mat>' % (cl.cov.get("dim_attr", n), cl.cov.get("band_attr", band), "\n".join(rows))
     if cl.kind in ("obs", "hdiff") and oidx is not None and list(oidx) != list(range(n)):
         C = C[np.ix_(oidx, oidx)]
         nzb = [abs(i - j) for i in range(n) for j in range(n) if C[i, j] != 0.0]
